@@ -16,8 +16,19 @@ use serde_json::json;
 
 const SAMPLE_PER_SCENARIO: usize = 6;
 
+/// `plan_produced` = run_dispatch returned Ok.  When it returned an error no plan is produced; a movement
+/// timed at +infinity in an intermediate state of such a run never takes place (the run reports the trains
+/// concerned as stuck), so the train's events are cut at its first non-finite time.  In a run that DOES
+/// produce a plan every event is kept (and a non-finite time is itself reported).
+static PLAN_PRODUCED: std::sync::atomic::AtomicBool = std::sync::atomic::AtomicBool::new(true);
 fn train_events(t: &TrainSnap) -> (Vec<(usize, usize, f64)>, Option<f64>) {
-    let evs = events_of(t);
+    let mut evs = events_of(t);
+    if !PLAN_PRODUCED.load(std::sync::atomic::Ordering::SeqCst) {
+        if let Some(cut) = evs.iter().position(|e| !e.2.is_finite()) {
+            evs.truncate(cut);
+            return (evs, None);
+        }
+    }
     // the train has left the model once every node of its path is timed: it then releases everything at the time of its last node
     let t_end = if t.finished { t.path.last().map(|d| d.time) } else { None };
     (evs, t_end)
@@ -42,8 +53,9 @@ fn snap_oracle(net: &[altrios_core::track::Link], s: &Snap) -> (bool, bool, Vec<
         if let Ok(o) = occupancy(&evs, None) {
             let mut oi = 0usize;
             for d in t.path.iter().take(t.idx_free.min(t.path.len())) {
+                if !d.time.is_finite() && !PLAN_PRODUCED.load(std::sync::atomic::Ordering::SeqCst) { break; }
                 if d.ty != 0 { continue; }
-                let oc = &o[oi]; oi += 1;
+                let oc = match o.get(oi) { Some(x) => x, None => break }; oi += 1;
                 let st = match s.auths.get(d.link) { Some(st) => st, None => { f.push(format!("train {}: link {} outside link_disp_auths", i, d.link)); continue; } };
                 match st.get(d.auth_idx) {
                     Some(a) if a.train == i => {
@@ -155,6 +167,7 @@ fn ledger_cases(k: usize, net: &[altrios_core::track::Link], snaps: &[Snap], tag
                     if let Some(d) = t.path.iter().take(t.idx_free).skip(from).find(|d| d.ty != 2 && !d.time.is_finite()) {
                         // not a movement in time at all: reported (same defect as C05's infinite arrival times), not replayed
                         let mut o = Outs::new(); o.b("finite_time", false);
+                        if !PLAN_PRODUCED.load(std::sync::atomic::Ordering::SeqCst) { prev = cur; continue; }
                         out.push(mk("ledger_infinite_time", vec![format!("snapshot {}/{}: train {} is authorised onto link {} at a non-finite time (inf)", si, snaps.len(), tr, d.link)], String::new(), o, "infinite_time"));
                         prev = cur; continue;
                     }
@@ -197,6 +210,8 @@ pub fn scenario_cases(seed: u64, k: usize) -> Vec<Case> {
     };
     tags.push(format!("hooks:{}", if run.hooked { "on" } else { "off" }));
     let mut out = vec![];
+    let produced = matches!(run.outcome, DispOutcome::Ok(_));
+    PLAN_PRODUCED.store(produced, std::sync::atomic::Ordering::SeqCst);
     match &run.outcome {
         DispOutcome::Ok(plans) => {
             tags.push("outcome:ok_plan".into());
